@@ -1,6 +1,10 @@
 """Configuration of ./check C02 (see cfg/README)."""
 
-PROP = {'modules': ['SfntV.Props.C02'],
+_GROUPS = ['GlyfDec', 'GlyfLazy']   # further checked-index model groups: Drive/Total<G>.lean + harness/area_total_<g>.go
+
+PROP = {'drive': ['Total'] + ['Total' + g for g in _GROUPS],
+ 'harness_files': ['area_total.go'] + ['area_total_' + g.lower() + '.go' for g in _GROUPS],
+ 'modules': ['SfntV.Props.C02'],
  'required_theorems': ['C02_kern_no_panic', 'C02_kern_cost', 'C02_kern',
                        'C02_maxp_no_panic', 'C02_maxp_cost', 'C02_maxp',
                        'C02_header_no_panic', 'C02_header_cost', 'C02_header',
